@@ -451,7 +451,9 @@ func c01opts(k *mon.Case) fontgen.Opts {
 			o.MinGlyphs, o.MaxGlyphs = 900, 1100
 		}
 	}
-	if k.C.Thorough() && k.Index%1000 == 11 {
+	if k.C.Thorough() && k.Index%1000 == 11 || k.Index == 9 {
+		// the largest number of glyphs there can be (quick tier: one
+		// TrueType font; a CID-keyed one costs minutes)
 		o.MinGlyphs, o.MaxGlyphs = 65535, 65535
 		if o.Kind == "cff" {
 			// glyph names are strings with 16-bit string ids (391 are predefined):
